@@ -28,10 +28,10 @@ AGGS = ["count", "valid_count", "sum", "mean"]
 
 
 @st.composite
-def cases(draw, tier, aggs=AGGS, max_nd=None):
+def cases(draw, tier, aggs=AGGS, max_nd=None, big=True):
     if max_nd is None:
         max_nd = 3 if tier == "quick" else 4
-    if draw(st.integers(0, 9)) == 0:
+    if big and draw(st.integers(0, 9)) == 0:
         # a boundary extent (255 .. 65537): the array cube then addresses its cells with uint16 / uint32 strides
         spec = draw(Q.cube_specs(max_nd=2, min_nd=1, max_n=20, big_ok=True, tails=((), (), (2,))))
     else:
